@@ -74,7 +74,11 @@ def gen(rng, tier):
             'delay_max': rng.choice([0.0, 0.0, 0.05]),
             'stall': rng.choice([0.0, 0.0, 0.02, 0.05]),
             'fork_fail': rng.choice([0.0, 0.0, 0.0, 0.1, 0.3]),
-            'slow_service': rng.choice([0.0, 0.0, 0.2])}
+            'slow_service': rng.choice([0.0, 0.0, 0.2]),
+            # requests submitted right when the master registers its queue
+            # with the scheduler, and line level pre-emption in the scheduler
+            'at_register': rng.choice([0, 0, 1, 3]),
+            'preempt': rng.choice([0.0, 0.0, 0.1, 0.3])}
 
 
 # ------------------------------------------------------------------------------
@@ -246,7 +250,7 @@ def run(seed, scenario, trace=None, tier='quick'):
               'held': {}, 'results': {}, 'exec_routed': {}, 'tasks': {},
               'env_before': None, 'worker_proc': None, 'dispatched': set(),
               'proc_uid': {}, 'fork_failed': set(), 'cur_req': None,
-              'svc': {}}
+              'svc': {}, 'extra': {}}
         sim.data['c20'] = st
 
         def os_process(name, environ, cwd):
@@ -392,6 +396,32 @@ def run(seed, scenario, trace=None, tier='quick'):
                 st['svc'][i]['ret'] = ret
                 sim.log('svc_return', i=i, uid=ret['uid'],
                         exit_code=ret.get('exit_code'))
+
+            # requests which arrive while the scheduler handles the master's
+            # queue registration
+            extra = list()
+            if sc.get('at_register'):
+                seen = {'n': 0}
+
+                def on_reg(ev):
+                    if ev['kind'] == 'pub' and \
+                            ev['m'].get('cmd') == 'register_raptor_queue':
+                        seen['n'] += 1
+                sim.listeners.append(on_reg)
+
+                def at_register():
+                    sim.block(lambda: seen['n'] > 0, 120.0, what='register')
+                    for k in range(sc['at_register']):
+                        i = len(sc['reqs']) + k
+                        r = {'mode': 'func', 'cores': 1, 'gpus': 0,
+                             'payload': 'pl_ret', 'sleep': 0.0, 'at': 0.0}
+                        extra.append(r)
+                        task = make_request(i, r, side)
+                        st['tasks'][task['uid']] = i
+                        st['extra'][i] = r
+                        sim.probe('request_at_register')
+                        put.put([task])
+                sim.spawn(at_register, 'at_register', group='driver')
 
             tl = sorted((r['at'], i) for i, r in enumerate(sc['reqs']))
             t0 = sim.now
@@ -556,7 +586,7 @@ def run(seed, scenario, trace=None, tier='quick'):
                 sim.violation(PROP, 'result_count', 'task_service_leak',
                               {'left': sorted(m._task_service_data)})
             for uid, i in sorted(judged.items()):
-                r = sc['reqs'][i]
+                r = sc['reqs'][i] if i < len(sc['reqs']) else st['extra'][i]
                 res = st['results'].get(uid, [])
                 routed = st['exec_routed'].get(uid, [])
                 if r['mode'] == 'executable':
@@ -666,7 +696,10 @@ def run(seed, scenario, trace=None, tier='quick'):
         cfg['final'] = final
         return driver
 
-    res = C.run_world(seed, build, trace=trace, tmp=True,
+    pre = None
+    if sc.get('preempt'):
+        pre = (('scheduler/base.py',), sc['preempt'])
+    res = C.run_world(seed, build, trace=trace, tmp=True, preempt=pre,
                       stall_prob=sc.get('stall', 0.0),
                       max_steps=200000 if tier == 'quick' else 600000)
     res['nontrivial'] = len(sc['reqs']) >= 3
